@@ -115,7 +115,7 @@ impl ErrKind {
 #[derive(Debug, Clone, PartialEq, Serialize, Deserialize)]
 pub struct ErrInfo {
     pub kind: ErrKind,
-    /// The numbered line the error is attributed to (parsed from " IN n").
+    /// The numbered line the error is attributed to (its structured location).
     pub line: Option<u64>,
     pub text: String,
     pub caret: Vec<String>,
@@ -133,7 +133,8 @@ pub fn err_info(interp: &Interpreter, err: &TracedInterpreterError, last_line: O
     let caret = err.get_line_with_pointer_caret(interp, last_line);
     ErrInfo {
         kind: ErrKind::of(&err.error),
-        line: line_of_error_text(&text),
+        // the structured location, not the " IN n" suffix of the message text
+        line: err.location.and_then(|l| l.as_numbered()).map(|n| n.line),
         text,
         caret,
     }
